@@ -286,7 +286,12 @@ def scenarios(ctx):
         data = sorted(rnd.randrange(1, 6 * iv) for _ in range(rnd.randint(0, 5)))
         extra = [rnd.randrange(1, 5 * iv) for _ in range(rnd.randint(0, 2))] if rnd.random() < 0.3 else []
         scs.append(ka_scenario(iv, to, lats, data=data, extra_pongs=extra,
-                               sched="".join(rnd.choice("01") for _ in range(8)), payload=rnd.choice(["", "ka", "ping-payload"])))
+                               sched="".join(rnd.choice("01") for _ in range(8)), payload=rnd.choice(["", "ka", "ping-payload", "caf\u00e9", "ping-\u2713", "\u65e5\u672c"])))
+    # a non-ASCII ping_payload: sent as its UTF-8 bytes, every interval, and answered pings are not reported
+    for iv, to in ((3 * TPS, TPS), (5 * TPS, 2 * TPS)):
+        for payload in ("caf\u00e9", "ping-\u2713", "\u65e5\u672c\u8a9e"):
+            scs.append(ka_scenario(iv, to, [1, 1, 1], payload=payload))
+            scs.append(ka_scenario(iv, to, [1, INF], payload=payload, tail_responsive=False))
     return scs
 
 
